@@ -68,10 +68,13 @@ def generate(seed: int, tier: str) -> Dict[str, Any]:
         for _ in range(r.randint(2, 4)):
             ops = []
             for _ in range(r.randint(2, 4)):
-                if r.chance(0.55):
+                x = r.random()
+                if x < 0.5:
                     ops.append({"op": "put", "k": r.choice(KEYS[:3]), "v": next(val), "c": r.choice(COSTS)})
-                else:
+                elif x < 0.85:
                     ops.append({"op": "get", "k": r.choice(KEYS[:3])})
+                else:
+                    ops.append({"op": "items", "k": None})  # a snapshot read: must equal the contents at ONE instant
             threads.append(ops)
         total = sum(len(t) for t in threads)
         while total > 11:
@@ -488,6 +491,10 @@ def _threads(p: Dict[str, Any], stats: Dict[str, int]) -> Tuple[List[Dict[str, A
                     if op["op"] == "put":
                         r = cache.put(op["k"], op["v"], op["c"]) if bytes_mode else cache.put(op["k"], op["v"])
                         h["res"] = tuple(r) if bytes_mode else None
+                    elif op["op"] == "items":
+                        snap = cache.items()
+                        sched.yield_point("items.returned")  # whatever came back is consumed later, as callers do
+                        h["res"] = tuple((k, v) for k, v in snap)
                     else:
                         h["res"] = cache.get(op["k"])
                     h["ret"] = next(seq)
@@ -529,6 +536,8 @@ def _threads(p: Dict[str, Any], stats: Dict[str, int]) -> Tuple[List[Dict[str, A
         def ap(m, h):
             if h["op"] == "put":
                 return tuple(m.put(h["k"], h["v"], h["c"]))
+            if h["op"] == "items":
+                return tuple((k, vc[0]) for k, vc in m.d.items())
             return m.get(h["k"])
     else:
         if inner.size() > me:
@@ -544,6 +553,8 @@ def _threads(p: Dict[str, Any], stats: Dict[str, int]) -> Tuple[List[Dict[str, A
             if h["op"] == "put":
                 m.set(h["k"], h["v"])
                 return None
+            if h["op"] == "items":
+                return tuple((k, tv[1]) for k, tv in m.d.items())
             hit, v = m.get(h["k"])
             return v if hit else None
     if not viol and not _linearizable(history, mk, ap):
